@@ -159,7 +159,24 @@ def run(ck):
         rounds = [h for h in out if "i" not in h]        # sweeps of the same scripts over fresh keys
     else:
         nh = 600 if ck.thorough else 60
-        out = ck.drive(b, ["all", str(nh), "4", "3", "60000" if ck.thorough else "5000"], timeout=1500)
+        out = ck.drive(b, ["all", str(nh), "4", "3", "60000" if ck.thorough else "5000"], timeout=1500, allow_fail=True)
+        if ck.last_rc != 0:
+            # the driver process died.  If the Go runtime reports a panic / fatal error and the goroutine that died is inside one of the stores
+            # (the writer loop of the log store, a handler of the SQLite store), the store crashed under concurrent use: that is the property
+            err = ck.last_stderr or ""
+            import re
+            m = re.search(r"(?m)^(panic: .*|fatal error: .*|unexpected fault address.*)$", err)
+            stack = err[m.start():m.start() + 4000] if m else ""
+            first = stack.split("\n\ngoroutine ")[0] if stack else ""
+            store = re.search(r"go\.miragespace\.co/specter/kv/(aof|memory|sqlite3)\.", first)
+            if m and store:
+                bk = {"aof": "aof", "memory": "memory", "sqlite3": "sqlite"}[store.group(1)]
+                ck.violation("C18:%s:store-crashed" % bk, "the %s store crashed the process while goroutines used it concurrently: %s; crashing goroutine: %s"
+                             % (bk, m.group(1)[:200], " | ".join(l.strip() for l in first.splitlines()[1:14])), None)
+                ck.traces += 1
+                ck.count(("crash", bk), True)
+                return
+            raise vf.Infra("driver kvconc exited %s:\n%s" % (ck.last_rc, err[-2500:]))
         recs = [h for h in out if str(h.get("kind", "")).startswith("random-")]
         rounds = [h for h in out if not str(h.get("kind", "")).startswith("random-")]
         # systematic schedules on the in-memory backend: the hash function of the store is a scheduling point
